@@ -556,6 +556,19 @@ func (g *fGen) stringsFamily() {
 	g.add(b.String())
 }
 
+// intCallAsLaterArgument: an int-returning user function without object parameters, whose body decides with || and &&
+// (both operands, either deciding), is called while an earlier object argument of an enclosing call is already on the
+// stack; the frame of the outer call must start where that argument lies.
+func (g *fGen) intCallAsLaterArgument() {
+	g.imports["strconv"] = true
+	g.hit("call:int-function-with-short-circuit-body-as-a-later-argument")
+	gr, j2, top := g.name("gr"), g.name("j"), g.name("t")
+	a, b := 1+g.pick(90), 1+g.pick(9)
+	g.add(fmt.Sprintf("func %s(n int) int {\n\tif n > %d || n < 0 {\n\t\treturn 1\n\t}\n\tif n > %d && n < %d {\n\t\treturn 2\n\t}\n\treturn 3\n}\n", gr, a, b, a))
+	g.add(fmt.Sprintf("func %s(a string, b string) string {\n\treturn a + \"/\" + b\n}\n", j2))
+	g.add(fmt.Sprintf("func %s(s string, n int) string {\n\treturn %s(s, strconv.Itoa(%s(n))) + %s(strconv.Itoa(%s(n+1)), s)\n}\n", top, j2, gr, j2, gr))
+}
+
 // genFocusProgram builds one program of the focus stream.
 func genFocusProgram(r *rand.Rand, prefix string, feat map[string]int) qProgram {
 	g := &fGen{r: r, prefix: prefix, feat: feat, imports: map[string]bool{}}
@@ -571,6 +584,9 @@ func genFocusProgram(r *rand.Rand, prefix string, feat map[string]int) qProgram 
 		default:
 			g.stringsFamily()
 		}
+	}
+	if g.chance(0.5) {
+		g.intCallAsLaterArgument()
 	}
 	if g.chance(0.3) {
 		g.rejectedBlank()
